@@ -4,7 +4,7 @@ from pyvc.verify import Engine, discharge
 e = Engine()
 keys = sys.argv[1:] or list(e.side.contracts)
 for k in keys:
-    for kk in [x for x in e.side.contracts if k in x]:
+    for kk in [x for x in e.side.contracts if k in x and e.side.contracts[x].opts.get('verify', True)]:
         print(e.verify_function(kk))
 t=time.time()
 res = discharge(e, e.obligations, timeout_ms=int(__import__('os').environ.get('TMO','5000')))
